@@ -636,6 +636,11 @@ class Field(Criterion, JSON):
         if self.table == current_table:
             self.table = new_table
 
+    def __hash__(self) -> int:
+        # Term.__eq__ builds a criterion (always truthy), so fields that hash alike collapse in sets:
+        # include the table so that fields_() keeps same-named columns of different tables apart
+        return hash((self.name, getattr(self, "alias", None), self.table))
+
     def get_sql(self, ctx: SqlContext) -> str:
         field_sql = format_quotes(self.name, ctx.quote_char)
 
